@@ -184,6 +184,39 @@ func propC12(c *ctx) error {
 			}
 		}
 	}
+	// ---------- a failed operand must not be used as a value anywhere: nil flowing through "+" / "==" into a key
+	{
+		fns := map[string]fnDecl{"fx": {Kind: "val", Ret: vInt(1).j}, "ferr": {Kind: "err", Ret: vInt(0).j}}
+		frame := vMap(kv{"m", vMap(kv{"f<nil>", val{nil, J{"fn": "fx"}}}, kv{"<nil>", val{nil, J{"fn": "fx"}}}, kv{"false", val{nil, J{"fn": "fx"}}})},
+			kv{"fx", val{nil, J{"fn": "fx"}}}, kv{"ferr", val{nil, J{"fn": "ferr"}}})
+		for _, src := range []string{`m["f" + nosuch]()`, `m["" + nosuch]()`, `m["f" + ferr()]()`, `m["" + (nosuch == 1)]()`, `(nosuch ? fx : fx)()`, `m[nosuch.x + ""]()`, `m["f" + nosuch].y`, `fx(nosuch)`} {
+			rc := &renderCase{Data: frame.j, Fns: fns}
+			log := &callLog{}
+			data, _, specs := rc.goData(log)
+			out := implEval(src, []any{data}, log)
+			res.eval("after-failure|"+src, true, J{"src": src})
+			res.S3Checked++
+			wantLog := ""
+			if strings.Contains(src, "ferr()") {
+				wantLog = "ferr"
+			}
+			if out.R == "ok" || strings.Join(out.Calls, ",") != wantLog {
+				res.violate(J{"src": src, "env": rc.Data, "fns": fns}, J{"r": "err", "calls": wantLog}, J{"r": out.R, "calls": out.Calls}, "a function is called (or a value produced) after an operand has already failed")
+			}
+			if c.d != nil {
+				m, err := c.d.ask(J{"op": "eval", "src": src, "data": rc.Data, "fns": specs})
+				if err != nil {
+					return err
+				}
+				if sget(m, "r") != "unsupported" {
+					res.S2Compared++
+					if sget(m, "r") != out.R || strings.Join(strList(m["calls"]), ",") != strings.Join(out.Calls, ",") {
+						res.disagree(J{"src": src}, J{"r": out.R, "calls": out.Calls}, m, "eval after failure")
+					}
+				}
+			}
+		}
+	}
 	// ---------- template level: a slot that fails vs the same slot succeeding; writer failing at every index
 	tn := c.n(250, 8000)
 	slots := []string{"text", "raw", "title", "if", "with", "range", "insert", "elif"}
